@@ -203,7 +203,7 @@ theorem rowVals_ok (cells : List NumCell) (h : cells.all okRowVal = true) :
     exact ⟨(h c hc).1.1.2, (h c hc).1.2⟩
   · intro v hv
     obtain ⟨c, hc, rfl⟩ := List.mem_map.mp hv
-    exact (h c hc).1.1.1
+    exact (h c hc).1.1.1.1
 
 theorem rstrip_renderRow (first : Str) (vals : List Str) (hfirst : Token first = true)
     (hvals : ∀ v ∈ vals, NumText v = true ∧ v.length ≤ 7) : rstrip (renderRow first vals) = renderRow first vals := by
